@@ -1,32 +1,19 @@
 mod args;
-mod codec;
-mod decode;
-mod identc;
-mod retain;
-mod schema;
-mod table;
+mod gen;
+mod hist;
 
 use serde_json::json;
 
 #[global_allocator]
 static ALLOC: vcommon::alloc::Counting = vcommon::alloc::Counting;
 
-/// Registries frozen from the compiled-in type corpus (filled in by the corpus module).
-pub fn corpus_registries() -> Vec<scale_info::PortableRegistry> {
-    Vec::new()
-}
-
 fn main() {
     let a = args::Args::parse();
     vcommon::report::install_panic_hook();
     let start = std::time::Instant::now();
     let rep = match a.cmd.as_str() {
-        "codec" => codec::run(&a),
-        "decode" => decode::run(&a),
-        "schema" => schema::run(&a),
-        "retain" => retain::run(&a),
-        "table" => table::run(&a),
-        "ident" => identc::run(&a),
+        "hist" => hist::run(&a),
+        "digest" => hist::digest(&a),
         other => {
             eprintln!("unknown subcommand {}", other);
             std::process::exit(64);
@@ -37,6 +24,7 @@ fn main() {
     v["cmd"] = json!(a.cmd);
     v["wall_s"] = json!(start.elapsed().as_secs_f64());
     v["hooks"] = json!(vcommon::HAVE_HOOKS);
+    v["docs_feature"] = json!(cfg!(feature = "docs"));
     let out = a.s("out", "-");
     let text = serde_json::to_string(&v).unwrap();
     if out == "-" {
